@@ -141,9 +141,11 @@ def evaluate(scs):
     return go, mod
 
 
-def shrink(sc, still_fails, rounds=8, width=60):
+def shrink(sc, still_fails, rounds=6, width=48):
     """greedy batch shrinking; still_fails(list of scenarios) -> list of bool"""
     cur = sc
+    if os.environ.get("VERIF_NO_SHRINK") == "1":
+        return cur
     for _ in range(rounds):
         cands = [c for c in shrink_candidates(cur) if valid_scenario(c)][:width]
         if not cands:
